@@ -289,7 +289,7 @@ def case(ctx, rng, idx, state):
 if __name__ == "__main__":
     harness.main(
         PROP, "fault_enumeration", case, setup_fn=setup,
-        tiers=dict(quick=dict(cases=160, shards=8, time=200), thorough=dict(cases=4000, shards=16, time=1200)),
+        tiers=dict(quick=dict(cases=160, shards=8, time=900), thorough=dict(cases=4000, shards=16, time=3000)),
         rule="40 (lattice, point group) pairs x {no TR, grey, black-white} x random symmetric NKdiv/NKFFT (incl. anisotropic FFT on axes mixed by "
              "the group); refinement histories chosen by a pseudo-random adversary (stub calculator), adpt_mesh 2-3 or anisotropic, adpt_fac 1-4, "
              "1-4 iterations, irreducible or full; tetrahedral grids with random length/NKFFT/split options and 0-3 refinement iterations. "
